@@ -5,6 +5,7 @@ whose world satisfies `SysAll` (for the list of constructed containers) to such 
 returned or thrown; and the driver's `alive` flags stay in step with that list.
 -/
 import SvModel.Properties.Bridge
+import SvModel.Properties.C15
 
 namespace SvModel.Bridge
 open SvModel Gen History SvModel.System
@@ -311,5 +312,37 @@ example : CoveredRet { cfg := Ex.cfgT } [0, 1, 2, 3] (initSys 2 3) []
   · refine ⟨by decide +kernel, ?_⟩; show 1 < _; decide +kernel
   · show 2 ∈ [0, 1, 2, 3] ∧ 2 ∉ _ ∧ 0 ∈ _; decide +kernel
   · show 2 ∈ _ ∧ 0 ∈ _ ∧ 0 ≠ 2; decide +kernel
+
+end SvModel.Bridge
+
+namespace SvModel.Bridge
+open SvModel Gen History SvModel.System
+
+/-- C15 at every state the driver can reach: after ANY covered history of protocol calls (any fault lists), a call that
+    consumes a single-pass range — `append`, `assign`, `insert` anywhere — on a constructed container and returns has
+    dereferenced and incremented every position exactly once, in order, and nothing beyond (the streams are the ones the
+    driver numbers with `nextStream`; the mid-sequence insert needs no hypothesis at all) -/
+theorem api_stream_once (ac : ApiCfg) (hpol : StrongPolicy ac.cfg) (N M : Nat) (hN : N ≤ ac.cfg.maxSize) (hM : M ≤ ac.cfg.maxSize)
+    (h : List (Op × List Nat)) (hc : Covered ac [0, 1, 2, 3] (initSys N M) [] h)
+    (x : Nat) (vs : List Int) (f : List Nat) (hx : (apiRun ac (initSys N M) h).isAlive x = true) :
+    let s := apiRun ac (initSys N M) h
+    let w0 : World Int := { s.w with faults := f }
+    (∀ r w', appendRangeInput ac.cfg x true s.nextStream 0 vs w0 = .ok r w' →
+        iterEvs w'.trace = iterEvs w0.trace ++ streamEvs s.nextStream 0 vs.length) ∧
+    (∀ u w', assignWithRangeInput ac.cfg x s.nextStream vs w0 = .ok u w' →
+        iterEvs w'.trace = iterEvs w0.trace ++ streamEvs s.nextStream 0 vs.length) ∧
+    (∀ p r w', insertRangeInputMid ac.cfg x p s.nextStream vs w0 = .ok r w' →
+        iterEvs w'.trace = iterEvs w0.trace ++ streamEvs s.nextStream 0 vs.length) := by
+  intro s w0
+  obtain ⟨A', hA', hs'⟩ := api_reachable_from_init ac hpol N M hN hM h hc
+  have hxA : x ∈ A' := (hA' x).mpr hx
+  have hs0 := sysAll_faults hs' f
+  have hv : VecOK ac.cfg w0 x := hs0.ok.vec x hxA
+  have hl : Ledger w0 := hs0.ok.led
+  have hn : (w0.hdr x).N ≤ ac.cfg.maxSize := hs0.ok.nmax x hxA
+  refine ⟨fun r w' hr => ?_, fun u w' hr => ?_, fun p r w' hr => ?_⟩
+  · exact C15.stream_once ac.cfg x true s.nextStream 0 vs w0 w' r hv hl hn hpol hr
+  · exact (C15.assign_stream_once ac.cfg x s.nextStream vs w0 w' u hv hl hn hpol hr).1
+  · exact C15.insert_mid_stream_once ac.cfg x p s.nextStream vs w0 w' r hr
 
 end SvModel.Bridge
